@@ -237,6 +237,7 @@ def run(ctx, budget):
         ic.rebind(80 * 1024, 16 * 1024)
         one_log(ctx, d, 'timed', lines, pending)
         ctx.count('timed_logs')
+    one_log(ctx, b''.join(ic.boundary_time_messages(rng)), 'boundary-times', lines, pending)
     one_log(ctx, b'', 'empty', lines, pending)
     one_log(ctx, b'\x01\x02\x03', 'junk', lines, pending)
     histories(ctx, budget * 20, lines, pending)
